@@ -229,7 +229,7 @@ func drive() int {
 			// while it consumes hangCPU seconds of CPU time (one case that does not end). A worker that
 			// is merely slow (loaded machine) is stopped hardStop after the deadline without a verdict:
 			// its remaining cases count as not explored.
-			hangCPU := 600.0
+			hangCPU := 300.0
 			if v, err := strconv.ParseFloat(os.Getenv("VERIF_HANG_CPU_S"), 64); err == nil && v > 0 {
 				hangCPU = v // testing aid
 			}
